@@ -119,6 +119,8 @@ type Gen struct {
 	depth     int
 	topKey    string
 	cloTab    map[string]*Closure // Fn-sort term → closure
+	sfAxioms  []sfAxiom           // definitional axioms of quantified spec functions
+	noopFns   map[string]bool     // Fn-sort terms known to have no program-visible effect (context cancel functions)
 	axiomsIn  map[string]bool
 	heapInit  map[string]Term
 	curFnName string
@@ -152,7 +154,7 @@ type allocBound struct {
 
 func newGen(e *Engine, topKey string) *Gen {
 	return &Gen{eng: e, declared: map[string]bool{}, notes: map[string]int{}, structs: map[string]*structInfo{}, byType: map[types.Type]string{},
-		strConsts: map[string]Term{}, topKey: topKey, cloTab: map[string]*Closure{}, axiomsIn: map[string]bool{}, heapInit: map[string]Term{}, stdUsed: map[string]bool{}, trusted: map[string]bool{}, assumedContracts: map[string]bool{}}
+		strConsts: map[string]Term{}, topKey: topKey, cloTab: map[string]*Closure{}, noopFns: map[string]bool{}, axiomsIn: map[string]bool{}, heapInit: map[string]Term{}, stdUsed: map[string]bool{}, trusted: map[string]bool{}, assumedContracts: map[string]bool{}}
 }
 
 func (g *Gen) note(s string) { g.notes[s]++ }
@@ -663,3 +665,6 @@ func (g *Gen) heapInitFacts(locName, s string) {
 	}
 	g.header = append(g.header, "(assert "+and(cs...).S+")")
 }
+
+// sfAxiom is the definitional axiom of a spec function with a quantified body.
+type sfAxiom struct{ name, text string }
